@@ -41,6 +41,9 @@ type World struct {
 	Keys []string
 	// KMSPath: nodes created from now on sign through the Cloud-KMS hand-over (DER -> parseSignature -> appendV)
 	KMSPath bool
+	// OfflineNotifier: nodes created from now on have a configured Discord notifier (its HTTP driver refuses every
+	// request), so that the branches behind `p.notifier != nil` run
+	OfflineNotifier bool
 }
 
 func NewWorld() *World {
@@ -267,10 +270,14 @@ func (w *World) build(ownKey int, reqCap int, d *db.Database, private bool) *Nod
 	if w.KMSPath {
 		signer = KMSPathSigner{I: ownKey}
 	}
+	notifier := noNotifier
+	if w.OfflineNotifier {
+		notifier = discord.VerifOffline()
+	}
 	n.P = processor.NewProcessor(w.Ctx, d,
 		n.LockC, n.SetC, n.SendC, n.ObsvC, n.ObsvReqC,
 		n.InjectC, n.SignedInC,
-		signer, n.GST, rep, noNotifier, GovChain, GovAddr)
+		signer, n.GST, rep, notifier, GovChain, GovAddr)
 	return n
 }
 
